@@ -300,6 +300,18 @@ def check_map(ctx, Canon, aliases, preferred, rng, steps):
             ctx.violation('ambiguous-preference-accepted', f'preferred_names set to {m2.preferred_names} on the instance (both name {v!r}; aliases {aliases}) but the export returned {r[0]} '
                           f'{list(r[1].columns) if r[0] == "ret" else r[1]}', dict(case, runtime_preferred=list(m2.preferred_names)))
             return
+    # ---- an object's preferences are its own: editing them in place on a sibling built by the constructor reaches neither the class
+    #      declaration nor this object
+    sib = construct(ctx, A, dict(strict=strict), case)
+    if sib != 'budget' and not isinstance(sib, Exception):
+        mine_before, class_before = list(m.preferred_names), list(A.PREFERRED_NAMES)
+        sib.preferred_names.append('Qq_pref')
+        sib.preferred_names.reverse()
+        ctx.count('sibling_preferences_edited')
+        if list(m.preferred_names) != mine_before or list(A.PREFERRED_NAMES) != class_before or list(type(m).__mro__[1].__dict__.get('PREFERRED_NAMES', [])) not in ([], class_before):
+            ctx.violation('alias-extra-storage', f'editing a sibling object\'s preferred_names in place changed this object\'s ({mine_before} -> {list(m.preferred_names)}) or the class declaration '
+                                                 f'({class_before} -> {list(A.PREFERRED_NAMES)})', case)
+            return
     # ---- export ---------------------------------------------------------------------------
     for flags in ({}, {'status': False}, {'iterations': False, 'status': False}):
         plain = twin.to_dataframe(**flags)
